@@ -544,8 +544,12 @@ func (f *Composite) wrapErrorUnpack(src []byte, isVariableLength bool) (int, err
 }
 
 func (f *Composite) unpack(data []byte, isVariableLength bool) (int, string, error) {
-	// forget the subfields set before: what is present after unpacking is
-	// defined by the data alone
+	// forget the subfields set before, together with their values: what is
+	// present after unpacking is defined by the data alone, and nothing set
+	// before comes back when a subfield is populated again
+	for tag := range f.setSubfields {
+		f.unsetSubfield(tag)
+	}
 	f.setSubfields = make(map[string]struct{})
 
 	if f.bitmap() != nil {
